@@ -524,8 +524,8 @@ impl Scenario for C16 {
     }
     fn runs(&self, tier: Tier) -> u64 {
         match tier {
-            Tier::Quick => 320,
-            Tier::Thorough => 12000,
+            Tier::Quick => 96,
+            Tier::Thorough => 6000,
         }
     }
     fn rule(&self) -> &'static str {
